@@ -693,3 +693,214 @@ Qed.
 Lemma mat2Sim3_k_checked (T : mat3R * vec3R) (s : R) :
   checks_ok (mdivs3 (fst T) s) -> mat2Sim3_k true T s = mat2Sim3_k false T s.
 Proof. intros H. unfold mat2Sim3_k. now rewrite (mat2SO3_checked _ H). Qed.
+
+(* ---------------------------------------------------------------- mat2SO3 on rotations *)
+(* the radicand the masks select is positive on EVERY matrix (so the conversion never divides by
+   zero), and on a rotation the result is the unit quaternion of that rotation, in all four regions *)
+Lemma sel_t_pos (m : mat3R) t n : mat2SO3_sel m = (t, n) -> 0 < t.
+Proof.
+  destruct m as [[[[a b] c] [[d e] f]] [[g h] i]]. unfold mat2SO3_sel.
+  cbn [ltb opp add sub one NumR]. unfold conv_tol, frac. cbn [div ofZ NumR]. unfold Rltb.
+  destruct (Rlt_dec i (1 / 100000)); [destruct (Rlt_dec e a) | destruct (Rlt_dec a (- e))];
+    intros E; injection E as E _; subst t; lra.
+Qed.
+Lemma sel_quat (m : mat3R) t w x y z s : rot m -> mat2SO3_sel m = (t, (w, x, y, z)) ->
+  s * s = t -> s <> 0 ->
+  unitq ((x / (2 * s), y / (2 * s), z / (2 * s)), w / (2 * s)) /\
+  SO3_matrix ((x / (2 * s), y / (2 * s), z / (2 * s)), w / (2 * s)) = m.
+Proof.
+  destruct m as [[[[a b] c] [[d e] f]] [[g h] i]]. intros [H Hd] E Hs Hn. unfold mat2SO3_sel in E.
+  cbn [ltb opp add sub one NumR] in E. unfold Rltb in E. unfold unitq, orth in *.
+  destruct (Rlt_dec i conv_tol); [destruct (Rlt_dec e a) | destruct (Rlt_dec a (- e))];
+    injection E as Et Ew Ex Ey Ez; subst t w x y z; clear - H Hd Hs Hn;
+    lie_unfold; injection H as H1 H2 H3 H4 H5 H6 H7 H8 H9;
+    (split; [| split_pairs]); (field_simplify_eq; [| exact Hn]); cbn [Rpow_def.pow]; nsatz.
+Qed.
+Lemma mat2SO3_rot (m : mat3R) : rot m ->
+  exists q, mat2SO3 false m = Some q /\ unitq q /\ SO3_matrix q = m.
+Proof.
+  intros Hm. unfold mat2SO3. cbn [andb].
+  destruct (mat2SO3_sel m) as [t [[[w x] y] z]] eqn:E.
+  pose proof (sel_t_pos _ _ _ E) as Ht.
+  cbn [leb zero NumR]. replace (Rleb t 0) with false by (symmetry; apply Rleb_false; exact Ht).
+  cbn [two mul div ofZ tsqrt NumR TransR].
+  assert (Hs : sqrt t * sqrt t = t) by (apply sqrt_sqrt; lra).
+  assert (Hn : sqrt t <> 0) by (intros H0; rewrite H0 in Hs; lra).
+  eexists. split; [reflexivity|]. exact (sel_quat m t w x y z (sqrt t) Hm E Hs Hn).
+Qed.
+
+Lemma resid_ext (f g : vec3R -> vec3R) : (forall p, f p = g p) -> forall src tgt, resid f src tgt = resid g src tgt.
+Proof.
+  intros Hfg. induction src as [|p src IH]; intros [|q tgt]; cbn [resid]; try reflexivity.
+  now rewrite Hfg, IH.
+Qed.
+Lemma SE3_act_rigid (t : vec3R) (q : quatR) (p : vec3R) : SE3_act (t, q) p = rigid_apply (SO3_matrix q) t p.
+Proof. unfold SE3_act, rigid_apply. cbn [fst snd]. rewrite SO3_act_is_matrix. al_ring. Qed.
+
+(* the function as called, with the SVD oracle: it returns (never raises) a valid SE3 element
+   that acts on points as p |-> R p + t with (R, t) = svdtf_mat *)
+Section WithOracle.
+Variable svd : mat3R -> mat3R * vec3R * mat3R.
+Definition svd_contract (M : mat3R) : Prop := let '(U, Sg, Vh) := svd M in svd_ok M U Sg Vh.
+
+Theorem svdtf_returns (src tgt : cloudR) :
+  sizes_ok src tgt = true -> svd_contract (svdtf_M src tgt) ->
+  exists T, svdtf svd src tgt = Some T /\ unitq (snd T) /\
+    let '(U, _, Vh) := svd (svdtf_M src tgt) in
+    rot (SO3_matrix (snd T)) /\
+    forall p, SE3_act T p = rigid_apply (fst (svdtf_mat src tgt U Vh)) (snd (svdtf_mat src tgt U Vh)) p.
+Proof.
+  intros Hs Hc. unfold svdtf, svd_contract in *. rewrite Hs.
+  destruct (svd (svdtf_M src tgt)) as [[U S] Vh]. destruct Hc as (HU & HV & _ & _).
+  pose proof (svdtf_proper U Vh HU HV) as HR.
+  destruct (mat2SO3_rot _ HR) as (q & Eq & Hq & Hm).
+  unfold mat2SE3, svdtf_mat. cbn [fst snd]. rewrite Eq.
+  eexists. split; [reflexivity|]. cbn [snd fst]. split; [exact Hq|]. split; [rewrite Hm; exact HR|].
+  intros p. rewrite SE3_act_rigid, Hm. reflexivity.
+Qed.
+End WithOracle.
+
+(* refutation at the level of the function as called: an oracle whose answer on this input meets
+   the contract, and the returned SE3 element moves the (identical) clouds apart *)
+Theorem svdtf_call_refuted :
+  exists (svd : mat3R -> mat3R * vec3R * mat3R) (src tgt : cloudR) T,
+    sizes_ok src tgt = true /\ svd_contract svd (svdtf_M src tgt) /\
+    svdtf svd src tgt = Some T /\ resid (SE3_act SE3_id) src tgt = 0 /\ resid (SE3_act T) src tgt = 32.
+Proof.
+  set (svd := fun _ : mat3R => (wit_U, wit_S, wit_Vh)).
+  destruct wit_contract as [H1 H2].
+  assert (Hc : svd_contract svd (svdtf_M wit_src wit_src)) by exact H2.
+  destruct (svdtf_returns svd wit_src wit_src H1 Hc) as (T & ET & _ & HT).
+  exists svd, wit_src, wit_src, T. split; [exact H1|]. split; [exact Hc|]. split; [exact ET|].
+  unfold svd in HT. cbv beta iota in HT. destruct HT as [_ HT]. split.
+  - rewrite (resid_ext _ (fun p => p)) by (intros p; apply SE3_act_id).
+    unfold wit_src. cbn [resid]. al_unfold. ring.
+  - rewrite (resid_ext _ _ HT).
+    unfold svdtf_mat. cbn [fst snd]. rewrite wit_rot. unfold wit_src.
+    cbv [resid length centroid vsum3 fold_right ofN Z.of_nat Pos.of_succ_nat Pos.succ vdivs].
+    al_unfold. field.
+Qed.
+
+(* ---------------------------------------------------------------- mat2Sim3 on s R, svdstf as called *)
+Lemma cbrt_cube (s : R) : 0 < s -> cbrt_pow (s * s * s) = Some s.
+Proof.
+  intros Hs. unfold cbrt_pow. cbn [ltb eqb zero NumR].
+  assert (H3 : 0 < s * s * s) by (apply Rmult_lt_0_compat; [apply Rmult_lt_0_compat|]; exact Hs).
+  replace (Rltb (s * s * s) 0) with false by (symmetry; apply Rltb_false; lra).
+  replace (Reqb (s * s * s) 0) with false by (symmetry; apply Reqb_false; lra).
+  cbn [texp tln div ofZ TransR NumR]. f_equal.
+  rewrite !ln_mult by (try exact Hs; apply Rmult_lt_0_compat; exact Hs).
+  replace ((ln s + ln s + ln s) / 3) with (ln s) by field. now apply exp_ln.
+Qed.
+Lemma checks_ok_rot (m : mat3R) : rot m -> checks_ok m.
+Proof.
+  intros [H Hd]. unfold checks_ok. unfold orth in H. rewrite H, Hd. cbv [mid3 mr0 mr1 mr2 vx vy vz fst snd one zero NumR].
+  replace (1 - 1) with 0 by ring. rewrite Rabs_R0. repeat split; lra.
+Qed.
+Lemma mdivs3_mscale3 (s : R) (m : mat3R) : s <> 0 -> mdivs3 (mscale3 s m) s = m.
+Proof. intros Hs. destruct_tuples. al_unfold. split_pairs; field; exact Hs. Qed.
+Lemma mat2Sim3_scaled_rot (s : R) (m : mat3R) (t : vec3R) : rot m -> 1 / 100000 < s ->
+  exists q, mat2Sim3 true (mscale3 s m, t) = Some (t, (q, s)) /\ unitq q /\ SO3_matrix q = m.
+Proof.
+  intros Hm Hs. assert (H0 : 0 < s) by lra. unfold mat2Sim3. cbn [fst snd].
+  rewrite mdet3_mscale3, (proj2 Hm), Rmult_1_r, (cbrt_cube s H0).
+  unfold mat2Sim3_k. cbn [fst snd]. rewrite absF_R, (Rabs_right s) by lra.
+  cbn [leb NumR]. replace (Rleb s conv_tol) with false
+    by (symmetry; apply Rleb_false; unfold conv_tol, frac; cbn [div ofZ NumR]; lra).
+  rewrite mdivs3_mscale3 by lra. rewrite (mat2SO3_checked _ (checks_ok_rot _ Hm)).
+  destruct (mat2SO3_rot _ Hm) as (q & Eq & Hq & Hmq). rewrite Eq. exists q. auto.
+Qed.
+Lemma Sim3_act_sim (t : vec3R) (q : quatR) (s : R) (p : vec3R) :
+  Sim3_act (t, (q, s)) p = sim_apply s (SO3_matrix q) t p.
+Proof.
+  unfold Sim3_act, RxSO3_act, sim_apply. cbn [fst snd]. rewrite SO3_act_is_matrix.
+  generalize (SO3_matrix q). intros m. al_ring.
+Qed.
+
+Section WithOracle2.
+Variable svd : mat3R -> mat3R * vec3R * mat3R.
+(* svdstf returns (does not raise) whenever the scale it computes exceeds mat2Sim3's 1e-5 threshold,
+   and the Sim3 element acts as p |-> s R p + t with (s, R, t) = svdstf_mat *)
+Theorem svdstf_returns (ws : bool) (src tgt : cloudR) :
+  sizes_ok src tgt = true -> svd_contract svd (svdstf_H src tgt) ->
+  let '(U, D, V) := svd (svdstf_H src tgt) in
+  1 / 100000 < fst (fst (svdstf_mat ws src tgt U D V)) ->
+  exists X, svdstf svd ws src tgt = Some X /\ unitq (fst (snd X)) /\
+    snd (snd X) = fst (fst (svdstf_mat ws src tgt U D V)) /\
+    forall p, Sim3_act X p = sim_apply (fst (fst (svdstf_mat ws src tgt U D V)))
+                                       (snd (fst (svdstf_mat ws src tgt U D V)))
+                                       (snd (svdstf_mat ws src tgt U D V)) p.
+Proof.
+  intros Hs Hc. unfold svdstf, svd_contract in *. rewrite Hs.
+  destruct (svd (svdstf_H src tgt)) as [[U D] V]. destruct Hc as (HU & HV & _ & _).
+  unfold svdstf_mat. cbn [fst snd]. intros Hsc.
+  pose proof (svdstf_proper U V HU HV) as HR.
+  destruct (mat2Sim3_scaled_rot _ _ (vsub (centroid tgt) (mvmul (mscale3 (svdstf_scale ws src U V D) (svdstf_rot U V)) (centroid src))) HR Hsc)
+    as (q & Eq & Hq & Hm).
+  rewrite Eq. eexists. split; [reflexivity|]. cbn [fst snd]. split; [exact Hq|]. split; [reflexivity|].
+  intros p. rewrite Sim3_act_sim, Hm. reflexivity.
+Qed.
+End WithOracle2.
+
+(* ---------------------------------------------------------------- one ICP pass does not increase
+   the sum of squared closest-point distances (partial: no reflection branch in this pass) *)
+(* contract of knn, k = 1: the index is in range and no target point is closer *)
+Definition knn_ok (P tgt : cloudR) (idx : list nat) : Prop :=
+  Forall2 (fun p i => (i < length tgt)%nat /\
+                      forall q, In q tgt -> sqnorm (vsub (nth i tgt vzero) p) <= sqnorm (vsub q p)) P idx.
+(* sum over the cloud of the squared distance to the target point the index list selects *)
+Definition cpd (P tgt : cloudR) (idx : list nat) : R := resid (fun p => p) P (gather3 tgt idx).
+
+Lemma resid_map (f : vec3R -> vec3R) : forall P G, resid (fun p => p) (map f P) G = resid f P G.
+Proof. induction P as [|p P IH]; intros [|g G]; cbn [map resid]; try reflexivity. now rewrite IH. Qed.
+Lemma cpd_best (P tgt : cloudR) : forall idx' idx, knn_ok P tgt idx' ->
+  Forall (fun i => (i < length tgt)%nat) idx -> length idx = length P ->
+  cpd P tgt idx' <= cpd P tgt idx.
+Proof.
+  unfold cpd, knn_ok. induction P as [|p P IH]; intros idx' idx H2 Hr HL.
+  - inversion H2; subst. cbn. lra.
+  - inversion H2 as [|? i' ? idx'r [Hi' Hbest] H2r]; subst. destruct idx as [|i idx]; [discriminate|].
+    inversion Hr as [|? ? Hi Hrr]; subst. injection HL as HL.
+    cbn [gather3 map resid]. cbn [add NumR].
+    specialize (IH idx'r idx H2r Hrr HL). unfold gather3 in IH.
+    pose proof (Hbest (nth i tgt vzero) (nth_In _ _ Hi)). lra.
+Qed.
+Lemma knn_ok_length P tgt idx : knn_ok P tgt idx -> length idx = length P.
+Proof. unfold knn_ok. induction 1; cbn; [reflexivity | now f_equal]. Qed.
+Lemma knn_ok_range P tgt idx : knn_ok P tgt idx -> Forall (fun i => (i < length tgt)%nat) idx.
+Proof. unfold knn_ok. induction 1; constructor; tauto. Qed.
+
+Section WithOracle3.
+Variable svd : mat3R -> mat3R * vec3R * mat3R.
+Variable knn : cloudR -> cloudR -> list (R * nat).
+Theorem icp_pass_monotone_partial (temporal target temporal' : cloudR) (err : R) :
+  temporal <> [] ->
+  knn_ok temporal target (map snd (knn temporal target)) ->
+  knn_ok temporal' target (map snd (knn temporal' target)) ->
+  (let M := svdtf_M temporal (gather3 target (map snd (knn temporal target))) in
+   svd_contract svd M /\ let '(U, _, Vh) := svd M in mdet3 (mmul3 U Vh) = 1) ->
+  icp_body svd knn temporal target = Some (err, temporal') ->
+  cpd temporal' target (map snd (knn temporal' target)) <= cpd temporal target (map snd (knn temporal target)).
+Proof.
+  intros Hne Hk Hk' Hsvd Hbody. unfold icp_body in Hbody.
+  set (idx := map snd (knn temporal target)) in *. set (G := gather3 target idx) in *.
+  assert (HLG : length G = length temporal) by (unfold G, gather3; rewrite map_length; apply (knn_ok_length _ _ _ Hk)).
+  assert (Hs : sizes_ok temporal G = true).
+  { unfold sizes_ok. rewrite HLG, Nat.eqb_refl. destruct temporal; [contradiction | reflexivity]. }
+  destruct Hsvd as [Hc Hd].
+  destruct (svdtf_returns svd temporal G Hs Hc) as (T & ET & _ & HT). rewrite ET in Hbody.
+  injection Hbody as _ Ht'. subst temporal'.
+  unfold svd_contract in Hc. destruct (svd (svdtf_M temporal G)) as [[U S] Vh]. destruct HT as [_ HT].
+  (* closest points of the moved cloud are at least as close as the old correspondences *)
+  pose proof (cpd_best _ target _ idx Hk' (knn_ok_range _ _ _ Hk)) as H1.
+  unfold se3_cloud in *. rewrite map_length in H1. specialize (H1 (knn_ok_length _ _ _ Hk)).
+  eapply Rle_trans; [exact H1|]. unfold cpd. fold G. rewrite resid_map, (resid_ext _ _ HT).
+  (* svdtf's transform is at least as good as the identity on the matched pairs *)
+  pose proof (svdtf_optimal_partial temporal G U S Vh Hs Hc Hd mid3 vzero rot_mid3) as H2.
+  rewrite (resid_ext (rigid_apply mid3 vzero) (fun p => p)) in H2 by (intros p; al_ring). exact H2.
+Qed.
+End WithOracle3.
+
+(* `source_.norm(dim=-1)**2` of the code is the squared norm the model uses *)
+Lemma norm_sq (p : vec3R) : sqrt (sqnorm p) * sqrt (sqnorm p) = sqnorm p.
+Proof. apply sqrt_sqrt, sqnorm_nonneg. Qed.
